@@ -28,6 +28,11 @@ LABELS = {"events": "events:set:0", "tree": "state:batch", "hash": "app:set:hash
           "times": "app:set:blockDelta", "versions": "app:set:versions", "emission": "app:set:emission", "price": "app:set:price"}
 
 
+TOKEN_REACH = ["CreateOk", "CreateDuplicate", "CreateBadSupply", "RecreateOk", "RecreateByOther", "RecreateUnknown", "OwnerChanged", "OwnerChangeByOther",
+               "RecreateByNewOwner", "MintOk", "MintOverMax", "MintByOther", "MintArchivedVersion", "MintNotMintable", "BurnOk", "BurnByHolder", "BurnBelowMinimum",
+               "BurnNotBurnable"]
+
+
 def regress(family):
     out = []
     reg = os.path.join(vlib.ROOT, "scenarios", "%s_regress.ndjson" % family)
@@ -54,6 +59,9 @@ def ledger(tier, seed):
             scs.append(s)
     scs += gens.ledger(rnd, {"quick": 120, "thorough": 2500}[tier])
     scs += gens.multisig_wide(rnd, {"quick": 12, "thorough": 120}[tier])
+    # behaviours of the coin-registry menu of the ledger model (tokens: create, recreate, owner change, mint, burn)
+    tokens = [dict(s, id="TK" + s["id"]) for s in vlib.tlc_generate("MCLedger", "gen/MCLedgerGen_tokens.cfg", "W1u", "ledger")]
+    scs += sample(rnd, tokens, {"quick": 150, "thorough": 3000}[tier])
     return scs + regress("ledger")
 
 
